@@ -684,13 +684,25 @@ func (rd *renderer) js(n *Node) string {
 	panic("unknown node kind " + n.K)
 }
 
-func coqNs(u []int) string {
-	s := make([]string, len(u))
-	for i, c := range u {
-		s[i] = fmt.Sprint(c)
+func coqPacked(fn string, u []int, per int, width uint, cshift uint) string {
+	if len(u) == 0 {
+		return "nil"
 	}
-	return "[" + strings.Join(s, ";") + "]"
+	var parts []string
+	for i := 0; i < len(u); i += per {
+		var v uint64
+		k := 0
+		for ; k < per && i+k < len(u); k++ {
+			v |= uint64(u[i+k]) << (width * uint(k))
+		}
+		v |= uint64(k) << cshift
+		parts = append(parts, fmt.Sprint(v))
+	}
+	return "(" + fn + " [" + strings.Join(parts, ";") + "]%uint63)"
 }
+
+func coqNs(u []int) string  { return coqPacked("P16", u, 3, 16, 48) }
+func coqCps(u []int) string { return coqPacked("P21", u, 2, 21, 42) }
 
 func coqZ(i int) string {
 	if i < 0 {
@@ -712,7 +724,7 @@ func coqExpr(n *Node) string {
 	case "fcc":
 		return "(EFcc " + coqNs(n.U) + ")"
 	case "fcp":
-		return "(EFcp " + coqNs(n.U) + ")"
+		return "(EFcp " + coqCps(n.U) + ")"
 	case "cat":
 		return "(EConcat " + coqExpr(n.A) + " " + coqExpr(n.B) + ")"
 	case "tmpl":
@@ -734,11 +746,11 @@ func coqExpr(n *Node) string {
 	case "repeat":
 		return fmt.Sprintf("(ERepeat %s %d%%nat)", coqExpr(n.A), n.I)
 	case "trim":
-		return "(ETrim 0 " + coqExpr(n.A) + ")"
+		return "(ETrim 0%N " + coqExpr(n.A) + ")"
 	case "trimStart":
-		return "(ETrim 1 " + coqExpr(n.A) + ")"
+		return "(ETrim 1%N " + coqExpr(n.A) + ")"
 	case "trimEnd":
-		return "(ETrim 2 " + coqExpr(n.A) + ")"
+		return "(ETrim 2%N " + coqExpr(n.A) + ")"
 	case "upper":
 		return "(ECase true " + coqExpr(n.A) + ")"
 	case "lower":
@@ -782,7 +794,7 @@ func valid(n *Node) bool {
 // ------------------------------------------------------------------------------------------------
 // running one case
 
-const failTerm = "(mkCase (ELit []) (ELit []) (mkS [] [] true) (mkS [] [] true) (mkP true true true true false false true true true true) false)%N"
+const failTerm = "(mkCase (ELit nil) (ELit nil) (mkS nil nil true) (mkS nil nil true) (mkP true true true true false false true true true true) false)%N"
 
 type single struct {
 	units  []int
